@@ -308,7 +308,7 @@ def run_obligation(ob_id, opts):
                 r2, t2, err2, hit2 = replay_concrete(ob, vals, chk.choices)
                 labs = [(lab, ok, d) for lab, ok, d in r2 if lab == chk.label]
                 native_fail = [x for x in labs if not x[1]]
-                is_loop_vc = chk.label.startswith('loop[') and not chk.label.endswith('.init')
+                is_loop_vc = chk.label.startswith('loop[')
                 entry = dict(clause=chk.label, values=_json_safe(vals), choices=_json_safe(chk.choices),
                              model=str(info)[:2000], detail=_json_safe(chk.detail),
                              native_results=_json_safe(r2[:20]), native_trace=_json_safe(t2[:40]),
@@ -317,8 +317,8 @@ def run_obligation(ob_id, opts):
                     entry['confirmed'] = True
                     res['refuted'].append(entry)
                 elif is_loop_vc:
-                    res['undecided'].append("%s: invariant not inductive (counterexample to induction, "
-                                            "not a reachable state): %s" % (chk.label, _json_safe(vals)))
+                    res['undecided'].append("%s: loop annotation not established/inductive for this code (counter-model "
+                                            "is not a failing input): %s" % (chk.label, _json_safe(vals)))
                 elif err2 is not None and not labs:
                     # the native run died before reaching the clause
                     entry['confirmed'] = False
